@@ -33,7 +33,8 @@ ASSUMPTIONS = [
 FLOORS = {'files_loaded': 60, 'cells_compared': 2000,
           'shared_members_compared': 100, 'cached_values_compared': 300,
           'names_compared': 30, 'ignore_sets': 20, 'storage_forms_seen': 9,
-          'evaluations_compared': 1000}
+          'evaluations_compared': 1000, 'date1904_workbooks': 4,
+          'sheet_scoped_twin_names': 5}
 ANCHOR_FUNCS = {
     'xlcalculator/reader.py': ['Reader.read', 'Reader.read_cells',
                                'Reader.read_defined_names'],
@@ -99,8 +100,11 @@ def norm_formula(text):
     return text[1:] if text.startswith('=') else text
 
 
-def gen_file(rng, sheets):
+def gen_file(rng, sheets, date1904=False):
     sp = Spec()
+    sp.sb.date1904 = date1904
+    epoch = datetime.datetime(1904, 1, 1) if date1904 else \
+        datetime.datetime(1899, 12, 30)
     for s in sheets:
         sp.sb.sheet(s)
     texts = ['alpha', 'ß é ж', 'a&b<c>"d"', ' x ', 'TRUE', '12', "it's"]
@@ -139,8 +143,7 @@ def gen_file(rng, sheets):
                 elif form == 'date':
                     serial = rng.randint(40000, 46000)
                     sp.sb.put(s, c, r, v=str(serial), s='1')
-                    d = datetime.datetime(1899, 12, 30) + datetime.timedelta(
-                        days=serial)
+                    d = epoch + datetime.timedelta(days=serial)
                     sp.expect[key] = {'kind': 'const',
                                       'value': ('date', d.isoformat())}
                     sp.wbcells[key] = serial
@@ -159,8 +162,7 @@ def gen_file(rng, sheets):
             if form == 'date':
                 serial = rng.randint(40000, 46000)
                 sp.sb.put(s, 4, r, v=str(serial), s='1')
-                d = datetime.datetime(1899, 12, 30) + datetime.timedelta(
-                    days=serial)
+                d = epoch + datetime.timedelta(days=serial)
                 sp.expect[key] = {'kind': 'const',
                                   'value': ('date', d.isoformat())}
                 sp.wbcells[key] = serial
@@ -269,7 +271,10 @@ def run(ctx):
             pair = rng.choice([['Sheet10', 'Sheet1'], ['Data2', 'Data']])
             sheets = pair + [x for x in sheets if x not in pair][:2]
             ctx.event('prefix_named_sheets')
-        sp = gen_file(rng, sheets)
+        date1904 = rng.random() < 0.2
+        if date1904:
+            ctx.event('date1904_workbooks')
+        sp = gen_file(rng, sheets, date1904)
         with_names = rng.random() < 0.6
         if with_names:
             s0 = sheets[0]
@@ -280,6 +285,22 @@ def run(ctx):
             sp.names['NmRange'] = ('rng', s0, 1, 1, 2, 3, (True,) * 4)
             for nm, t in sp.names.items():
                 sp.sb.names.append((nm, build.name_target(t)))
+            if len(sheets) > 1 and rng.random() < 0.5:
+                # a name of the same spelling that is LOCAL to another sheet
+                # (localSheetId) and bound elsewhere: it is that sheet's
+                # private name and does not replace the workbook's
+                other = sheets[1]
+                for nm in list(sp.names):
+                    twin = (nm, build.name_target(
+                        ('ref', other, 3, 5, True, True)) if nm == 'NmCell'
+                        else build.name_target(
+                            ('rng', other, 2, 4, 3, 5, (True,) * 4)),
+                        sheets.index(other))
+                    if rng.random() < 0.5:
+                        sp.sb.names.append(twin)
+                    else:
+                        sp.sb.names.insert(0, twin)
+                ctx.event('sheet_scoped_twin_names')
             # the range name used in a formula, next to a formula that spells
             # the same rectangle literally (without $)
             k1, k2 = (s0, 9, 1), (s0, 9, 2)
